@@ -65,6 +65,17 @@ def derivN (I : K) (vs : List K) (x : K) : K := vs.foldl (fun acc v => derivStep
 /-- `0.5 * (A + A.swapaxes.conj())` for one element -/
 def hermitize (half : K) (conj : K → K) (A : Nat → Nat → K) (a b : Nat) : K := half * (A a b + conj (A b a))
 
+/-- the `hermitian` / `antihermitean` option of `FFT_R_to_k.__call__` on a k-resolved matrix `H k a b`, for ANY layout of
+    the k index (`ι` = flat index, grid triple, k-list position): `0.5 * (A ± A.swapaxes(band axes).conj())` acts on the
+    two BAND indices at fixed k  (`sign = 1` hermitian, `sign = -1` anti-hermitian) -/
+def hermK {ι : Type} (half : K) (conj : K → K) (sign : K) (H : ι → Nat → Nat → K) (k : ι) (a b : Nat) : K :=
+  half * (H k a b + sign * conj (H k b a))
+
+/-- what `swapaxes(1, 2)` does to an array that is still in the grid layout `(N1, N2, N3, m, n)`: it exchanges the
+    k2 and k3 GRID axes instead of the band axes (documentation of a defect class, not the code) -/
+def hermSwapGrid (half : K) (conj : K → K) (H : Vec3 → Nat → Nat → K) (m : Vec3) (a b : Nat) : K :=
+  half * (H m a b + conj (H (m.1, m.2.2, m.2.1) a b))
+
 /-- `Data_K._rotate` for one k-point and one Cartesian component:
     `einsum('kba,kbc...,kcd->kad...', UU.conj(), mat, UU)`, i.e. `(U† X U)_{ad} = Σ_b Σ_c conj(U_ba) X_bc U_cd` -/
 def rotate (n : Nat) (conj : K → K) (U X : Nat → Nat → K) (a d : Nat) : K :=
@@ -177,6 +188,17 @@ def handle : List String → String
         ++ showListWith showGRat ";" (pts.map (slowPath z N χd entries)) ++ " | "
         ++ showListWith showGRat ";" (pts.map fun m => explicitSum (fun r => gchar false N m r * χd r) entries)
     | _, _, _, _, _, _, _, _, _ => "bad-op"
+  -- FFT_R_to_k.__call__(X, hermitian / antihermitean) of the element (a,b) at every grid point (dK = 0):
+  --   flag 0 none, 1 hermitian, 2 antihermitean ; entries of X_ab and of X_ba over the same R list
+  | ["callopt", n, flag, rs, xab, xba] =>
+    match (parseNats? n).bind toMesh?, parseNat? flag, (parseIntss? rs).bind (·.mapM toVec3?), parseGRats? xab, parseGRats? xba with
+    | some N, some fl, some R, some A, some B =>
+      let H : Vec3 → Nat → Nat → GRat := fun m a b =>
+        fftCore (idftBox N) N (R.zip (if a = 0 ∧ b = 1 then A else B)) m
+      let half : GRat := ⟨1 / 2, 0⟩
+      showListWith showGRat ";" ((gridPoints N).map fun m =>
+        if fl = 0 then H m 0 1 else hermK half GRat.conj (if fl = 1 then 1 else ⟨-1, 0⟩) H m 0 1)
+    | _, _, _, _, _ => "bad-op"
   -- Data_K._rotate: n, U (n x n row-major), X (n x n row-major)  ->  U^dagger X U (row-major)
   | ["rotate", n, us, xs] =>
     match parseNat? n, parseGRats? us, parseGRats? xs with
